@@ -38,7 +38,8 @@ def run_check(P, tier, seed, replay=None):
 
     # ---- 1. proofs ------------------------------------------------------------------------------
     gate = vlib.coq_gate()
-    make_ok, make_log = vlib.coq_make()
+    # the property's theorem file and its evaluator, with everything they depend on (full .vo compilation)
+    make_ok, make_log = vlib.coq_make(targets=[P.PROP_FILE[:-2] + ".vo"] + [m.replace(".", "/") + ".vo" for m in P.CHECK_MODULE.split()])
     obl_ok, theorems, assum, obl_log = vlib.coq_obligations(P.PROP_FILE)
     discharged = len(theorems) if (obl_ok and not gate) else 0
     proof_problem = None
@@ -67,7 +68,7 @@ def run_check(P, tier, seed, replay=None):
     axioms = sorted(set(a for a in assum if a != "Closed under the global context"))
     coverage.update(
         obligations=len(theorems), discharged=discharged,
-        checker_cmd="make -C coq -j16 (coq_makefile, full .vo) && coqc -Q coq DH coq/%s  [Coq 8.16.1]" % P.PROP_FILE,
+        checker_cmd="make -C coq -j16 <property and evaluator .vo with all dependencies> (coq_makefile, full .vo) && coqc -Q coq DH coq/%s  [Coq 8.16.1]" % P.PROP_FILE,
         theorems=theorems,
         print_assumptions=("all %d theorems: Closed under the global context" % len(assum)) if not axioms else axioms,
     )
